@@ -7,7 +7,10 @@ import Martian.Props.C11.Header
 
 Theorems about the executable model `Martian.Grpc` (`Model/Grpc.lean`) of `h2/grpc/grpc.go`.
 They hold for every compression library (`cd : Codec`); the wire round trip assumes
-`cd.RoundTrip` explicitly. Vocabulary (`GMsg`, `stream`, `expCalls`, `runFrames`, `emit`,
+`cd.RoundTrip` explicitly. Size hypotheses are exact: the code compares `uint32(a.buffer.Len())`,
+so the cut-set theorems need fewer than 2^32 + 5 bytes pending (`Props/C11/Bounds.lean`: sharp).
+Sub-files: `C11/Bounds.lean` (32-bit arithmetic), `C11/EmptyFrames.lean` (zero-length DATA frames),
+`C11/Header.lean` (`adapter.Header` over the ordered field list, gRPC detection, finding F11d). Vocabulary (`GMsg`, `stream`, `expCalls`, `runFrames`, `emit`,
 `Stream.run`) is defined in the model file.
 
 An END_STREAM on an *empty* DATA frame while no message is pending is turned by the code into
@@ -331,10 +334,10 @@ example : storeCodec.RoundTrip := fun _ _ => rfl
 /-- a two-message stream (one flagged compressed, one empty) satisfying `GMsg.ok`, cut into
 three frames inside the prefix and inside the payload, last frame non-empty -/
 example : ∃ (ms : List GMsg) (fs : List Bytes), (∀ m ∈ ms, m.ok storeCodec .gzip) ∧ fs ≠ [] ∧
-    fs.flatten = stream ms ∧ fs.getLast? ≠ some [] ∧ ms.length = 2 :=
+    fs.flatten = stream ms ∧ fs.getLast? ≠ some [] ∧ ms.length = 2 ∧ (stream ms).length < 4294967301 :=
   ⟨[⟨true, [7, 8], [7, 8]⟩, ⟨false, [], []⟩], [[1, 0, 0], [0, 2, 7], [8, 0, 0, 0, 0, 0]],
     by intro m hm; simp at hm; rcases hm with h | h <;> subst h <;> simp [GMsg.ok, decode, storeCodec],
-    by simp, by simp [stream, GMsg.frame, putBe32], by simp, rfl⟩
+    by simp, by simp [stream, GMsg.frame, putBe32], by simp, rfl, by simp [stream, GMsg.frame, putBe32]⟩
 
 /-- instance: the zero-length message whose prefix ends the END_STREAM frame is delivered with
 the end-of-stream (the input of F11a, fixed in the code and hence in the model) -/
